@@ -126,17 +126,18 @@ Theorem C12_GG_glue_roundtrip_partial :
           c_params (GeneralizedGammaDistribution_cdf RN s' None None None) = fit (GG_call s)).
 Proof. exact (@GG_fit_fixed). Qed.
 
-(* VonMises (last conjunct): what scipy's optimiser returned is exactly what every later evaluation uses.  PARTIAL: that the optimiser does not lose likelihood is scipy's (oracle), validated numerically by the harness *)
+(* VonMises (last conjunct): later evaluations use the kappa scipy returned and the location it returned, or the fixed mu itself when mu is fixed (scipy returns that one wrapped into [-pi,pi], which is the same distribution).  PARTIAL: that the optimiser does not lose likelihood is scipy's (oracle), validated numerically by the harness *)
 Theorem C12_VM_glue_roundtrip_partial :
   forall (fit : fitcall R -> list R) (s : VonMisesDistribution),
-       fit_contract fit ->
+       vm_contract fit ->
        exists s' : VonMisesDistribution,
          VonMisesDistribution__fit_mle RN fit s = Ok s' /\
          (forall v : R, VonMisesDistribution_f_kappa s = Some v -> VonMisesDistribution_kappa s' = v) /\
          (forall v : R, VonMisesDistribution_f_mu s = Some v -> VonMisesDistribution_mu s' = v) /\
          VonMisesDistribution_f_kappa s' = VonMisesDistribution_f_kappa s /\
          VonMisesDistribution_f_mu s' = VonMisesDistribution_f_mu s /\
-         c_params (VonMisesDistribution_cdf s' None None) = firstn 2 (fit (VM_call s)).
+         c_params (VonMisesDistribution_cdf s' None None) =
+         [nth 0 (fit (VM_call s)) 0; VM_fix_mu s (nth 1 (fit (VM_call s)) 0)].
 Proof. exact (@VM_fit_fixed). Qed.
 
 (* likelihood of a loc-scale family under x -> c x, loc -> c loc, scale -> c scale *)
